@@ -305,6 +305,13 @@ def r7_dumper_is_read_only(ctx, rid):
         check_entry(ctx, rid, ctx.repo.get_func(rel, q), None)
 
 
+def r8_boundary_vocabulary(ctx, rid):
+    """Equation edits (replace/remove) act on whole identifiers only if parser.replace recognises every operator character of
+    the grammar as a token boundary (same rule as C05-R4)."""
+    from .c05 import r4_boundary_vocabulary
+    r4_boundary_vocabulary(ctx, rid)
+
+
 RULES = [
     ("C15-R1", r1_left_context, 2),
     ("C15-R2", r2_dumper_vs_constructor, 8),
@@ -313,4 +320,5 @@ RULES = [
     ("C15-R5", r5_dump_key_is_free, 1),
     ("C15-R6", r6_loader_derivation, 3),
     ("C15-R7", r7_dumper_is_read_only, 8),
+    ("C15-R8", r8_boundary_vocabulary, 1),
 ]
